@@ -148,7 +148,7 @@ def main():
             vacuity_errors.append('%s: no path reaches an exit (contradictory precondition?)' % r.key)
         if not r.canaries:
             vacuity_errors.append('%s: no canary generated' % r.key)
-        if r.canaries and all(cn.verdict == 'unsat' for cn in r.canaries):
+        if r.canaries and all(cn.verdict == 'unsat' for cn in r.canaries) and not any(o.verdict == 'sat' for o in r.obligations):
             vacuity_errors.append('%s: `false` is provable at every sampled exit: assumptions are inconsistent' % r.key)
     if not obls:
         vacuity_errors.append('zero obligations generated')
@@ -227,14 +227,14 @@ def main():
 
     print('%s: %d/%d clauses discharged (%d instances, %d functions, %.1fs; solver %.1fs)' % (
         pid, n_discharged, n_clauses, len(obls), len(per_fn), wall, cov['solver_time_s']))
-    if vacuity_errors:
-        for e in vacuity_errors:
-            print('CHECKER-ERROR vacuity: ' + e)
-        return 3
     for line in vio_lines:
         print(line)
     if vio_lines:
         return 1
+    if vacuity_errors:
+        for e in vacuity_errors:
+            print('CHECKER-ERROR vacuity: ' + e)
+        return 3
     if refused:
         for k, why in refused:
             print('UNDECIDED function=%s reason=%s' % (k, why.splitlines()[0][:300]))
